@@ -95,7 +95,8 @@ def castLeaf (t : Target) (a : Arr) (lv : LVal) : Option (R DVal) :=
     if (tty == .duration && ty == .i64) || (tty != .duration && (ty == .i32 || ty == .i64)) then
       (if ty.inRange x then some (.ok (.int ty x)) else some (fail "out of range"))
     else none
-  | .int .i64, .timestamp _ _ _ _, .int x => some (.ok (.int .i64 x))
+  | .int .i64, .timestamp _ _ _ _, .int x =>
+    (if IntTy.i64.inRange x then some (.ok (.int .i64 x)) else some (fail "out of range"))
   | .string, _, .str b => some (.ok (.str .owned b))
   | .str, .dictionary _ _, .str _ => none
   | .str, _, .str b => some (.ok (.str .borrowed b))
